@@ -49,6 +49,44 @@ def R.obs : R → Ans
   | .ok => .ok | .val x => .val x | .unset => .unset | .int n => .int n | .indet => .indet
   | .logical l => .logical l | .raised _ => .refused
 
+/-! ### `check_type` (TypeChecker.py) -/
+
+/-- `check_type(value, expected_type)` returns normally.  For an aggregate expected type: `isinstance(value,
+type(expected_type))` and `value.get_type() == expected_type.get_type()` (bounds, UNIQUE, OPTIONAL of the element are
+not compared: `@TODO: check aggregate bounds`); for a simple expected type: `isinstance(value, expected_type)`.
+The function reads nothing but its two arguments. -/
+def checkType (x : Val) (expected : Ty) : Bool :=
+  match expected with
+  | .agg k b =>
+    match x.ty with
+    | .agg k' b' => if k' ≠ k then false else decide (b' = b)
+    | .simple _ => false
+  | .simple t =>
+    match x.ty with
+    | .simple t' => decide (t' = t)
+    | .agg _ _ => false
+
+/-- `check_type` raises `TypeError` -/
+def typeMismatch (x : Val) (expected : Ty) : Prop := ¬ (checkType x expected = true)
+
+instance (x : Val) (expected : Ty) : Decidable (typeMismatch x expected) := by
+  unfold typeMismatch; exact inferInstance
+
+theorem checkType_iff (x : Val) (e : Ty) : checkType x e = true ↔ x.ty = e := by
+  unfold checkType
+  cases e with
+  | simple t => cases hx : x.ty <;> simp
+  | agg k b =>
+    cases hx : x.ty with
+    | simple t => simp
+    | agg k' b' =>
+      by_cases hk : k' = k
+      · simp [hk]
+      · simp [hk]
+
+theorem typeMismatch_iff (x : Val) (e : Ty) : typeMismatch x e ↔ x.ty ≠ e := by
+  unfold typeMismatch; rw [checkType_iff]
+
 /-! ### Python list primitives -/
 
 /-- `lst[k]`: the position Python accesses, `none` = `IndexError` -/
@@ -81,12 +119,12 @@ structure Arr where
   hi : Int
   unique : Bool
   optional : Bool
-  base : Nat
+  base : Ty
   cells : List (Option Val)
   deriving DecidableEq, Repr
 
 /-- `ARRAY.__init__` -/
-def Arr.new (lo : Int) (hi : Option Int) (base : Nat) (u o : Bool) : Except Exc Arr :=
+def Arr.new (lo : Int) (hi : Option Int) (base : Ty) (u o : Bool) : Except Exc Arr :=
   match hi with
   | none => .error .type                                   -- `not isinstance(bound_2, int)`
   | some hi =>
@@ -97,7 +135,7 @@ def Arr.new (lo : Int) (hi : Option Int) (base : Nat) (u o : Bool) : Except Exc 
 def Arr.set (a : Arr) (i : Int) (x : Val) : Arr × R :=
   if i < a.lo then (a, .raised .index)
   else if i > a.hi then (a, .raised .index)
-  else if x.ty ≠ a.base then (a, .raised .type)            -- check_type(value, self.get_type())
+  else if typeMismatch x a.base then (a, .raised .type)            -- check_type(value, self.get_type())
   else
     let p := i - a.lo
     if a.unique && (pySliceTo a.cells p ++ pySliceFrom a.cells (p + 1)).contains (some x) then
@@ -139,7 +177,7 @@ structure Lst where
   lo : Int
   hi : Option Int
   unique : Bool
-  base : Nat
+  base : Ty
   cells : List Val
   deriving DecidableEq, Repr
 
@@ -151,7 +189,7 @@ def checkSizeBounds (lo : Int) (hi : Option Int) : Option Exc :=
     | none => none
 
 /-- `LIST.__init__` -/
-def Lst.new (lo : Int) (hi : Option Int) (base : Nat) (u : Bool) : Except Exc Lst :=
+def Lst.new (lo : Int) (hi : Option Int) (base : Ty) (u : Bool) : Except Exc Lst :=
   match checkSizeBounds lo hi with
   | some e => .error e
   | none => .ok { lo, hi, unique := u, base, cells := [] }
@@ -176,7 +214,7 @@ def Lst.set (l : Lst) (i : Int) (x : Val) : Lst × R :=
   let size : Int := l.cells.length
   if i < 1 ∨ i > size + 1 then (l, .raised .index)
   else if i = size + 1 ∧ l.full then (l, .raised .assertion)
-  else if x.ty ≠ l.base then (l, .raised .type)
+  else if typeMismatch x l.base then (l, .raised .type)
   else if l.unique && (pySliceTo l.cells (i - 1) ++ pySliceFrom l.cells i).contains x then
     (l, .raised .assertion)
   else if i = size + 1 then ({ l with cells := l.cells ++ [x] }, .ok)
@@ -208,11 +246,11 @@ def Lst.step (l : Lst) : Op → Lst × R
 structure Bag where
   lo : Int
   hi : Option Int
-  base : Nat
+  base : Ty
   cells : List Val
   deriving DecidableEq, Repr
 
-def Bag.new (lo : Int) (hi : Option Int) (base : Nat) : Except Exc Bag :=
+def Bag.new (lo : Int) (hi : Option Int) (base : Ty) : Except Exc Bag :=
   match checkSizeBounds lo hi with
   | some e => .error e
   | none => .ok { lo, hi, base, cells := [] }
@@ -225,10 +263,10 @@ def fullTest (ge : Bool) (len : Nat) (cap : Int) : Bool :=
 def Bag.add (b : Bag) (x : Val) : Bag × R :=
   match b.hi with
   | none =>
-    if x.ty ≠ b.base then (b, .raised .type) else ({ b with cells := b.cells ++ [x] }, .ok)
+    if typeMismatch x b.base then (b, .raised .type) else ({ b with cells := b.cells ++ [x] }, .ok)
   | some h =>
     if fullTest bagFullGe b.cells.length (bagFullAt b.lo h) then (b, .raised .assertion)
-    else if x.ty ≠ b.base then (b, .raised .type)
+    else if typeMismatch x b.base then (b, .raised .type)
     else ({ b with cells := b.cells ++ [x] }, .ok)
 
 def Bag.step (b : Bag) : Op → Bag × R
@@ -246,11 +284,11 @@ def Bag.step (b : Bag) : Op → Bag × R
 structure PSet where
   lo : Int
   hi : Option Int
-  base : Nat
+  base : Ty
   cells : List Val
   deriving DecidableEq, Repr
 
-def PSet.new (lo : Int) (hi : Option Int) (base : Nat) : Except Exc PSet :=
+def PSet.new (lo : Int) (hi : Option Int) (base : Ty) : Except Exc PSet :=
   match checkSizeBounds lo hi with
   | some e => .error e
   | none => .ok { lo, hi, base, cells := [] }
@@ -259,11 +297,11 @@ def PSet.new (lo : Int) (hi : Option Int) (base : Nat) : Except Exc PSet :=
 def PSet.add (s : PSet) (x : Val) : PSet × R :=
   match s.hi with
   | none =>
-    if x.ty ≠ s.base then (s, .raised .type) else ({ s with cells := pySetAdd s.cells x }, .ok)
+    if typeMismatch x s.base then (s, .raised .type) else ({ s with cells := pySetAdd s.cells x }, .ok)
   | some h =>
     if fullTest setFullGe s.cells.length (setFullAt s.lo h) then
       (if ¬ (x ∈ s.cells) then (s, .raised .assertion) else (s, .ok))
-    else if x.ty ≠ s.base then (s, .raised .type)
+    else if typeMismatch x s.base then (s, .raised .type)
     else ({ s with cells := pySetAdd s.cells x }, .ok)
 
 def PSet.step (s : PSet) : Op → PSet × R
@@ -300,5 +338,20 @@ def Agg.step : Agg → Op → Agg × R
 def Agg.run : Agg → List Op → List Ans
   | _, [] => []
   | a, op :: ops => let (a', r) := a.step op; r.obs :: Agg.run a' ops
+
+/-! ### several containers in one interpreter
+
+The Python objects share nothing: every method reads and writes `self` only, and `check_type` reads its two arguments
+only.  A world is the list of live containers; an operation addresses one of them. -/
+
+def World.step (w : List Agg) (i : Nat) (op : Op) : List Agg × Option R :=
+  match w[i]? with
+  | none => (w, none)                                   -- no such container
+  | some a => let (a', r) := a.step op; (w.set i a', some r)
+
+/-- an interleaved history over several containers; the answers, tagged with the container addressed -/
+def World.run : List Agg → List (Nat × Op) → List (Nat × Option Ans)
+  | _, [] => []
+  | w, (i, op) :: rest => let (w', r) := World.step w i op; (i, r.map R.obs) :: World.run w' rest
 
 end StepModel.PyAgg
